@@ -314,3 +314,13 @@ def shrink(case):
             s = list(case['shape'])
             s[d] = n - 1
             yield dict(case, shape=s)
+
+
+_gen_plain = gen
+
+
+def gen(rng, tier, idx):
+    case = _gen_plain(rng, tier, idx)
+    if True:
+        cm.maybe_bystanders(rng, case['sched'], case['P'])
+    return case
